@@ -198,7 +198,8 @@ func (r *Registry) RoundTrip(req *http.Request) (*http.Response, error) {
 	rs := clamp(rq.Ranges, size)
 	var resp *http.Response
 	switch {
-	case act.Kind == "whole" || len(rq.Ranges) == 0:
+	case act.Kind == "whole" || len(rq.Ranges) == 0 || size == 0:
+		// (an empty blob answers 200 to a ranged request, like Go's http.ServeContent does)
 		resp = simple(req, http.StatusOK, blob)
 		resp.Header.Set("Content-Length", strconv.FormatInt(size, 10))
 	case len(rs) == 0:
@@ -215,9 +216,12 @@ func (r *Registry) RoundTrip(req *http.Request) (*http.Response, error) {
 			}
 		}
 		resp = single(req, blob, Range{lo, hi})
-	case len(rs) == 1 && act.Kind != "multipart" && act.Kind != "multipart-reorder":
+	case len(rs) == 1 && act.Kind != "multipart" && act.Kind != "multipart-reorder" && act.Kind != "multipart-omit-last":
 		resp = single(req, blob, rs[0])
 	default:
+		if act.Kind == "multipart-omit-last" && len(rs) > 1 {
+			rs = rs[:len(rs)-1]
+		}
 		if act.Kind == "multipart-reorder" {
 			rs = append([]Range(nil), rs...)
 			sort.Slice(rs, func(i, j int) bool { return rs[i].B > rs[j].B })
